@@ -63,6 +63,7 @@ def _labels(npu_op_list, npu_op_to_cmd):
                            write_offset=[int(x) for x in po.write_offset] if po.write_offset is not None else None,
                            write_shape=[int(x) for x in po.write_shape] if po.write_shape is not None else None,
                            ofm_full_shape=[int(x) for x in ps.ofm_shapes[0]] if ps.ofm_shapes else None, ifm_full_shape=[int(x) for x in ps.ifm_shapes[0]] if ps.ifm_shapes else None,
+                           padding=getattr(po.attrs.get("padding"), "name", None),
                            lut_eq=([str(t.equivalence_id) for t in po.inputs if t is not None and t.purpose.name == "LUT"] or [None])[0],
                            scale_tensor=cmd.scale_tensor.name if getattr(cmd, "scale_tensor", None) is not None else None,
                            upscale=getattr(op.ifm_upscale, "name", None), weight_tensor=cmd.weight_tensor.name if cmd.weight_tensor is not None else None,
